@@ -239,8 +239,8 @@ def generate(tier, seed):
                 for m in (0, 1, 254, 255, 256, 257, 300):
                     add("sv.resize %s n=%d" % (h, m))
                     add("sv.assign_n %s n=%d v=%d" % (h, m, v))
-        # ---- inplace_vector
-        for cap in (1, 3, 4):
+        # ---- inplace_vector (capacity 0: the specialisation inplace_vector<T, 0>, always empty and full)
+        for cap in (0, 1, 3, 4):
             for n in range(cap + 1):
                 h = "cap=%d e=%s" % (cap, fl(content(n)))
                 v = rnd.randint(10, 99)
@@ -252,7 +252,7 @@ def generate(tier, seed):
                     add("iv.push %s v=%d k=%d" % (h, v, k))
                 add("iv.emplace_back %s v=%d" % (h, v))
                 add("iv.pop %s" % h)
-                for m in list(range(0, n + 1)) + [cap + 1, cap + 2] + BIG:     # the private member (explicit-instantiation access)
+                for m in (list(range(0, n + 1)) + [cap + 1, cap + 2] + BIG) if cap else ():     # the private member (explicit-instantiation access)
                     add("iv.unsafe_set_size %s n=%s" % (h, m))
         # ---- string_view / span
         for n in range(0, 5):
